@@ -18,10 +18,10 @@ let mk cfg =
   | _ -> failwith "cfg"
 
 let summary b s =
-  Buffer.add_string b (Printf.sprintf " [%d %d %d %d %d %d %d %d %d %d %d %d %d %d %d %d %d%d%d %d]"
+  Buffer.add_string b (Printf.sprintf " [%d %d %d %d %d %d %d %d %d %d %d %d %d %d %d %d %d%d%d %d %d %d]"
     (iz (st_num s.state)) (iz s.snd_una) (iz s.snd_nxt) (iz s.rcv_nxt) (iz s.snd_wnd) (iz s.rcv_wnd) (iz s.cwnd) (iz s.ssthresh)
     (iz s.rx_rto) (iz s.rto_base) (iz s.t_ack) (iz s.dup_acks) (iz s.mss) (iz s.sbuf_n) (iz s.rbuf.rb_n)
-    (List.length s.slist) (b2i s.support_fin_ack) (shut_num s.shutdown) (b2i s.shutdown_reads) (iz s.swnd_scale))
+    (List.length s.slist) (b2i s.support_fin_ack) (shut_num s.shutdown) (b2i s.shutdown_reads) (iz s.swnd_scale) (iz s.rbuf_len) (iz s.rbuf.rb_cap))
 
 let () = read_lines (fun l ->
   match split_ws l with
